@@ -29,9 +29,9 @@ theorem lookup_unique (cls cls' : List Klass) (kw : String) (hd : pairwiseDisjoi
   · intro k hk
     rw [lookup_eq_head_candidates] at hk
     match hc : candidates cls kw, hle, hk with
-    | [], _, hk => simp [hc] at hk
-    | [x], _, hk => simp [hc] at hk; simp [hk]
-    | _ :: _ :: _, hle, _ => simp [hc] at hle
+    | [], _, hk => simp at hk
+    | [x], _, hk => simp at hk; simp [hk]
+    | _ :: _ :: _, hle, _ => simp at hle
 
 example : pairwiseDisjoint Registry.temperature_classes = true ∧
     Registry.temperature_classes.reverse.Perm Registry.temperature_classes ∧
@@ -71,16 +71,18 @@ theorem transform_total :
       transform (.list l) = .list l) := by
   constructor
   · intro s
-    unfold transform
-    split
-    · exact .inl ⟨true, rfl⟩
-    · split
-      · exact .inl ⟨false, rfl⟩
-      · cases h : parseNumber s with
+    rw [transform_str]
+    cases h1 : trueWords.contains (lower s) with
+    | true => exact .inl ⟨true, rfl⟩
+    | false =>
+      cases h2 : falseWords.contains (lower s) with
+      | true => exact .inl ⟨false, rfl⟩
+      | false =>
+        cases h : parseNumber s with
         | none => exact .inr (.inr rfl)
         | some n => exact .inr (.inl ⟨n, rfl, parseNumberL_isNum _ _ h⟩)
   · intro l
-    unfold transform
+    rw [transform_list]
     cases h : l.mapM toFloat with
     | none => exact .inr rfl
     | some ns => exact .inl ⟨ns, rfl, mapM_toFloat_isNum l ns h⟩
@@ -100,9 +102,9 @@ theorem transform_cases (s : String) (l : List Scalar) :
         | some ns => .list ns
         | none => .list l) := by
   refine ⟨?_, ?_, ?_, rfl⟩
-  · intro h; simp [transform, h]
-  · intro h1 h2; simp [transform, h1, h2]
-  · intro h1 h2; simp [transform, h1, h2]
+  · intro h; rw [transform_str, h]; rfl
+  · intro h1 h2; rw [transform_str, h1, h2]; rfl
+  · intro h1 h2; rw [transform_str, h1, h2]; rfl
 
 example : transform (.scalar (.str "Yes")) = .scalar (.bool true) ∧
     transform (.scalar (.str "hell-no")) = .scalar (.bool false) ∧
@@ -118,16 +120,17 @@ theorem transform_idem (v : Value) : transform (transform v) = transform v := by
   cases v with
   | list l =>
     cases h : l.mapM toFloat with
-    | none => simp [transform, h]
+    | none => rw [transform_list, h]; simp only; rw [transform_list, h]
     | some ns =>
       have hn := mapM_toFloat_isNum l ns h
-      simp [transform, h, mapM_toFloat_fix ns hn]
+      rw [transform_list, h]; simp only
+      rw [transform_list, mapM_toFloat_fix ns hn]
   | scalar sc =>
     cases sc with
     | str s =>
       rcases transform_total.1 s with ⟨b, hb⟩ | ⟨n, hn, hnum⟩ | hs
       · rw [hb]; rfl
-      · rw [hn]; cases n <;> simp_all [isNum, transform]
+      · rw [hn]; cases n <;> first | rfl | (simp [isNum] at hnum)
       · rw [hs, hs]
     | none => rfl
     | bool b => rfl
@@ -161,16 +164,15 @@ theorem mixin_split (sr : SectionReg) (customs : Customs) (sec field sel : Strin
           simp only [hasKey, List.any_eq_true]; exact ⟨kv, hkv, by simp [he]⟩
         rw [hf] at this; cases this
       simpa using this
-    simp [popKey, List.lookup_cons, List.filter_cons, hfilter]
+    simp [popKey, hfilter]
   unfold determineKlass
   rw [hpop]
-  simp only [hc, if_false, hparts, hb, hm, hd]
-  rfl
+  simp [hc, hparts, hb, hm, hd, bind, Except.bind, pure, Except.pure]
 
 example : determineKlass (Registry.registry.sec "temperature") [] "temperature" "profile_type"
       [("profile_type", .scalar (.str "TempScalar+Isothermal")), ("T", .scalar (.dec false 1 3))]
     = .ok ([("T", .scalar (.dec false 1 3))],
-        .mixed ((Registry.registry.sec "temperature").mixins.take 1) ((Registry.registry.sec "temperature").classes.getD 1 default)) := by
+        .mixed ((Registry.registry.sec "temperature").mixins.take 1) ((Registry.registry.sec "temperature").classes.getD 2 default)) := by
   decide +kernel
 
 /-- An unknown selector is an error: when no class of the section claims the (lower-cased) selector — and it is
@@ -187,12 +189,15 @@ theorem unknown_selector_error (sr : SectionReg) (customs : Customs) (sec field 
   · intro sel one hl hc hs hn
     simp [determineKlass, popKey, hl, hc, hs, factory, hn, Except.map]
   · intro v hl hv
+    have hp : popKey cfg field = some (v, cfg.filter (·.1 != field)) := by simp [popKey, hl]
     unfold determineKlass
-    simp only [popKey, hl]
-    split
-    · next h => cases h
-    · next s c h => cases h; exact absurd rfl (hv s)
-    · rfl
+    rw [hp]
+    cases v with
+    | scalar sc =>
+      cases sc with
+      | str s => exact absurd rfl (hv s)
+      | _ => rfl
+    | _ => rfl
   · intro hl
     simp [determineKlass, popKey, hl]
 
@@ -223,11 +228,11 @@ theorem unknown_key_error_lenient (sr : SectionReg) (customs : Customs) (sec fie
     | some kv' => exact ⟨kv', rfl⟩
     | none =>
       rw [List.find?_eq_none] at h
-      have := h kv hm
-      simp [hv, hk] at this
+      have h' := h kv hm
+      simp only [hv, hk, Bool.or_self, Bool.not_false, not_true_eq_false] at h'
   obtain ⟨kv', hkv'⟩ := this
   refine ⟨kv'.1, ?_⟩
-  simp [createLenient, hr, instantiate, bindArgs, hkv', bind, Except.bind, Except.map]
+  simp only [createLenient, hr, instantiate, bindArgs, hkv', bind, Except.bind, Except.map]
 
 example : (createProfile (Registry.registry.sec "temperature") [] "temperature" "profile_type"
       [("profile_type", .scalar (.str "guillot")), ("kappa_ir", .scalar (.dec false 1 (-2)))]
